@@ -109,7 +109,7 @@ def run_shard(shard, ctx):
             sel = [pairs[j] for j in range(U + 1) if sm >> j & 1]
             keys = {"%s/%s" % tuple(p) for p in sel} & present
             exp = ["ok", restrict(full[1], keys)]
-            vias = ("file",) + (("file-tuple",) if sm % 5 == 0 else ()) + (("path", "path-bom") if sm % 7 == 3 else ()) + (("file-reuse",) if sm % 4 == 1 else ())
+            vias = ("file",) + (("file-tuple",) if sm % 5 == 0 else ()) + (("path", "path-bom", "path-str") if sm % 7 == 3 else ()) + (("file-reuse",) if sm % 4 == 1 else ())
             if sel and sm % 3 == 1:  # the same pairs named twice / in reverse order select the same tracks
                 e1.check_outcome(ctx, "selection", text, [exp], "file", sel + sel[::-1], "file tracks %r, selection with duplicates %r" % (sorted(present), sel + sel[::-1]))
                 ctx.case((text, "dup", tuple(map(tuple, sel))))
